@@ -1191,7 +1191,7 @@ def rule_prefix(fm, rep, rid='R6'):
 
 
 # ------------------------------------------------------------------ C01-R7 at least one value
-def rule_nonempty(fm, rep, rid='R7'):
+def rule_nonempty(fm, rep, rid='R7', check_kind=False):
     """Every path that builds the sendable Success state passes an emptiness test of the value whose true edge is an error."""
     cad = fm.cad
     srcs = []
@@ -1283,6 +1283,15 @@ def rule_nonempty(fm, rep, rid='R7'):
         if not errs:
             guarded = False
             why = 'the empty case does not become the Error state'
+        else:
+            # ... of the invalid-input kind (C03: "an invalid-input-kind error when the value was rejected")
+            kinds = set(y[2] for r in errs for y in walk(r) if y[0] == 'adt' and isinstance(y[1], str) and y[1].endswith('types::ErrorKind'))
+            for bi_, t_ in ib.calls():
+                if not ib.blocks[bi_]['cleanup']:
+                    kinds |= set(y[2] for y in walk(norm(T.call_term(bi_))) if y[0] == 'adt' and isinstance(y[1], str) and y[1].endswith('types::ErrorKind'))
+            if check_kind and kinds and kinds != {'InvalidInput'}:
+                guarded = False
+                why = 'the rejection of an empty list is reported with ErrorKind::%s, not InvalidInput' % sorted(kinds - {'InvalidInput'})[0]
     if guarded:
         # ... and nothing else is turned away here: every place in from_fmt that builds the Error state lies behind the
         # "empty" edge of the emptiness test and behind no other condition (a size limit, a kind whitelist ..)
